@@ -83,7 +83,7 @@ func walkSender(a *API, fn *ssa.Function) ([]sendPath, *Walker) {
 			return true
 		}
 		// inline the small in-package helpers between the sender and the driver seam
-		return f.Pkg == up && a.Senders[f] == "" && f.Signature.Recv() != nil && len(f.Blocks) <= 8
+		return f.Pkg == up && a.Senders[f] == "" && len(f.Blocks) <= 60
 	}
 	w.Opaque["(*uhppote.uhppote).debugf"] = true
 	args := make([]*Term, len(fn.Params))
